@@ -31,6 +31,10 @@ func WhereOf(d *m.Design, meth *m.Method) map[string]string {
 	for _, p := range h.Cookies {
 		out[p.Attr] = "cookie"
 	}
+	// MapParams("attr"): the map receives (and is sent as) the query string parameters
+	if h.MapParams != "" && h.MapParams != "*" {
+		out[h.MapParams] = "query"
+	}
 	// Basic credentials travel in the Authorization header
 	for _, c := range meth.Creds {
 		if c.Kind == "username" || c.Kind == "password" {
@@ -110,11 +114,14 @@ func PayloadGen(d *m.Design, meth *m.Method) *rapid.Generator[value.V] {
 					where = "header"
 				case len(h.Cookies) > 0:
 					where = "cookie"
+				case h.MapParams == "*":
+					where = "query"
 				}
 			}
 			loc := LocFor(where)
 			if where != "body" {
 				loc.NonEmptyArray = true
+				loc.NonEmptyMap = true // (a query string without parameters cannot carry an empty map)
 			}
 			return genValue(t, d, meth.Payload, loc, 3, nil)
 		}
@@ -126,6 +133,7 @@ func PayloadGen(d *m.Design, meth *m.Method) *rapid.Generator[value.V] {
 			loc := LocFor(w)
 			if w == "query" || w == "header" {
 				loc.NonEmptyArray = true
+				loc.NonEmptyMap = true
 			}
 			present := f.Required || f.Attr.Default != nil
 			if !present && MinLenCollection(d, f.Attr) && kf.Open("C04-absent-optional-collection-minlength") {
